@@ -50,14 +50,14 @@ func init() {
 }
 
 type esApp struct {
-	parent  int
-	group   string // "" = mounted on the parent app itself
-	prefix  string
-	full    string
-	hasEH   bool
-	mw      bool
-	after   bool
-	grpMw   bool
+	parent int
+	group  string // "" = mounted on the parent app itself
+	prefix string
+	full   string
+	hasEH  bool
+	mw     bool
+	after  bool
+	grpMw  bool
 }
 
 type esOp struct {
